@@ -27,7 +27,8 @@ XCHECK = os.environ.get("VERIF_XCHECK", "") == "1"      # E3 cross-check (thorou
 XCHECK_PER_TASK = 2
 XCHECK_EVERY = 97
 MAX_SAMPLES = 4
-MAX_CEX_PER_JOB = 6
+MAX_CEX_PER_JOB = 24          # counterexamples kept per job ...
+MAX_CEX_PER_OB = 3            # ... at most this many per obligation kind, so that one noisy kind cannot crowd out another
 
 
 class Harness:
@@ -172,7 +173,7 @@ class Acc:
                 self.inconclusive.append(dict(ob=name, info=info))
             return None
         self.inc("violating_obligations")
-        if len(self.cex) < MAX_CEX_PER_JOB:
+        if self._cex_room(name):
             self.cex.append(dict(ob=name, info=info,
                                  model=(model if isinstance(model, dict) else model_to_dict(model))
                                  if model is not None else None))
@@ -217,6 +218,9 @@ class Acc:
             except OSError:
                 pass
 
+    def _cex_room(self, name):
+        return len(self.cex) < MAX_CEX_PER_JOB and sum(1 for c in self.cex if c.get("ob") == name) < MAX_CEX_PER_OB
+
     def concrete(self, name, ok, info=None, eng=None):
         """A concrete (solver-free) obligation evaluated on a path's concrete output.
         With `eng`, a failing obligation carries a model of the path so that the path
@@ -229,7 +233,7 @@ class Acc:
             rec[1] += 1
             return True
         self.inc("violating_obligations")
-        if len(self.cex) < MAX_CEX_PER_JOB:
+        if self._cex_room(name):
             model = None
             if eng is not None:
                 try:
@@ -246,8 +250,9 @@ class Acc:
     def merge(self, o):
         for k, v in o.c.items():
             self.c[k] = self.c.get(k, 0) + v
-        room = max(0, MAX_CEX_PER_JOB - len(self.cex))
-        self.cex.extend(o.cex[:room])
+        for cx in o.cex:
+            if self._cex_room(cx.get("ob")):
+                self.cex.append(cx)
         room = max(0, MAX_SAMPLES - len(self.samples))
         self.samples.extend(o.samples[:room])
         self.inconclusive.extend(o.inconclusive[: max(0, 20 - len(self.inconclusive))])
